@@ -8,12 +8,12 @@ PROP = dict(
     level_text=("Differential property-based testing of the reader's number parsing against strconv on generated numeric "
                 "texts aimed at rounding boundaries (exact decimal midpoints computed with math/big), range edges and "
                 "near-miss spellings; searches for a counterexample, does not prove absence."),
-    level_note="Trusted: Go standard library strconv (oracle), math/big (midpoint construction). Inputs are single white-space-free fields below the scanner's line limit.",
+    level_note="Trusted: Go standard library strconv (oracle for validity everywhere and for values up to 700 digits), math/big (midpoint construction; value oracle beyond 700 digits). Inputs are single white-space-free fields below the scanner's line limit.",
     technique="property-based differential testing (rapid) + enumerated hostile constants + native fuzzing in thorough",
     rule=("One-line inputs 'BenchmarkX 1 <txt> u' / 'BenchmarkX <txt> 1 u' with <txt> from four aimed generators "
           "(numeric grammar incl. hex/underscore/inf/nan spellings; float-derived texts incl. exact decimal midpoints "
           "between adjacent floats and their neighbours; range-edge constants; integers around 2^53/2^63/2^64 and the "
-          "fast-path guard) plus single-edit mutations; oracle strconv.ParseFloat/Atoi bit-for-bit. Non-trivial = strconv "
+          "fast-path guard; hexadecimal texts on and next to rounding boundaries incl. the subnormal border; digit strings next to powers of five; more than 800 significant digits) plus single-edit mutations; oracle strconv.ParseFloat/Atoi bit-for-bit, except that plain decimal texts of more than 700 digits are judged against big.Rat rounding because strconv itself misplaces the decimal point beyond 800 digits. Non-trivial = strconv "
           "accepts the text and it is not a plain <=15-digit integer (value) / <=9-digit integer (iters), or strconv rejects "
           "it with ErrRange. Distinct = distinct case JSON (64-bit FNV), capped at 300000 per shard."),
     assumptions=["strconv.ParseFloat and strconv.Atoi of the Go standard library are correct (trusted oracle)"],
